@@ -172,8 +172,10 @@ def _run(ix, R):
         b = param_env(fl, f, CONTRIB_PARAMS[1:])
         ev = one(calls(fl, 'contribute_cia'), 'contribute_cia call')
         g = ev.guards
-        okg = not g or (len(g) == 1 and g[0].positive and
-                        fl.tab.equal(g[0].rf, spec(fl, 'self._total_cia > 0')))
+        from sa.helpers import guard_is
+        # (_total_cia is a count of pairs - an integer - so `not (n <= 0)` is `n > 0`)
+        okg = not g or (len(g) == 1 and (guard_is(fl, g[0], spec(fl, 'self._total_cia > 0'), True) or
+                                         guard_is(fl, g[0], spec(fl, 'self._total_cia <= 0'), False)))
         R.check('1.cia.guard', 'GUARD', site, 'kernel skipped only when the number of pairs is zero',
                 okg, key='guard %s' % [x.text() for x in g], detail='guard %s' % [x.text() for x in g],
                 loc=f.loc(ev.node))
@@ -387,6 +389,10 @@ def cia_weighting(ix, R):
         if tg is None or tg.head != 'idx' or len(tg.args) != 2 or not fl.tab.equal(tg.args[1], ll.index):
             why.append('target %s' % fmt(fl, st.target))
         elif not zero_leaves(fl, tg.args[0], pl):
+            if tg.args[0].mentions(lambda a: a.head == 'phi'):
+                # whether the buffer is wiped depends on a flag carried from one pass of the pair loop to the next
+                # (e.g. "skip the wipe for the first pair, the buffer is freshly allocated"): not decided here
+                raise AnalysisError('the component buffer is %s: zeroing depends on a loop-carried flag' % fmt(fl, tg.args[0])[:200])
             why.append('component buffer %s is not zeroed for each pair' % fmt(fl, tg.args[0]))
         if st.guards:
             why.append('layer accumulation is conditional on %s' % [g.text() for g in st.guards])
